@@ -5,7 +5,7 @@ ROOT="$(cd "$(dirname "${BASH_SOURCE[0]}")" && pwd)"
 export CARGO_NET_OFFLINE=true
 mkdir -p "$ROOT/target" "$ROOT/evidence" "$ROOT/replays"
 # LD_PRELOAD seam for std hash seeds
-cc -O2 -shared -fPIC -o "$ROOT/preload/getrandom_shim.so" "$ROOT/preload/getrandom_shim.c"
+cc -O2 -shared -fPIC -o "$ROOT/preload/getrandom_shim.so" "$ROOT/preload/getrandom_shim.c" "$ROOT/preload/fsfault_shim.c" -ldl
 (cd "$ROOT/sim" && cargo build --release --offline)
 (cd "$ROOT/sim_intern" && cargo build --release --offline)
 
